@@ -106,11 +106,154 @@ fn vary_env(r: &mut Rng, base: &Scenario) -> (Scenario, Vec<String>) {
 pub fn make_case(seed: u64, run: u64, stats: &mut Stats) -> Option<Case> {
     let rs = run_seed(seed, "C19", run);
     let mut r = Rng::new(rs);
-    match run % 4 {
+    match run % 5 {
         0 | 1 => make_env_case(&mut r, seed, run, stats),
         2 => make_multi_case(&mut r, seed, run, false),
-        _ => make_multi_case(&mut r, seed, run, true),
+        3 => make_multi_case(&mut r, seed, run, true),
+        _ => make_history_case(&mut r, seed, run, stats),
     }
+}
+
+/// Look-alikes of a source text: same names, same shapes, something different behind them
+fn look_alike(r: &mut Rng, text: &str) -> String {
+    let mut lines: Vec<String> = text.split('\n').map(|s| s.to_owned()).collect();
+    for _ in 0..r.urange(1, 3) {
+        match r.below(5) {
+            0 => {
+                // macro parameter lists permuted (same body text, other meaning)
+                for l in lines.iter_mut() {
+                    if l.trim_start().to_ascii_lowercase().starts_with("macro") {
+                        if let (Some(a), Some(b)) = (l.find('('), l.find(')')) {
+                            if a < b {
+                                let mut ps: Vec<String> = l[a + 1..b].split(',').map(|x| x.trim().to_owned()).filter(|x| !x.is_empty()).collect();
+                                if ps.len() > 1 {
+                                    ps.rotate_left(1);
+                                    *l = format!("{}({}){}", &l[..a], ps.join(","), &l[b + 1..]);
+                                }
+                            }
+                        }
+                    }
+                }
+            }
+            1 => {
+                // an instruction more after the entry point: every later label and jump moves by one
+                if let Some(p) = lines.iter().position(|l| l.trim_start().starts_with("start:")) {
+                    lines.insert(p + 1, "inc di".to_owned());
+                }
+            }
+            2 => {
+                // macro bodies changed, names kept
+                for l in lines.iter_mut() {
+                    if l.trim_start().to_ascii_lowercase().starts_with("macro") {
+                        *l = l.replace(" si,", " dx,").replace("add ", "sub ");
+                    }
+                }
+            }
+            3 => {
+                // a data item more in front: every data label moves
+                lines.insert(0, "db [3]".to_owned());
+            }
+            _ => {
+                // procedure bodies changed, names kept
+                let mut in_proc = false;
+                for l in lines.iter_mut() {
+                    let t = l.trim_start().to_ascii_lowercase();
+                    if t.starts_with("def ") {
+                        in_proc = true;
+                    } else if in_proc && t.starts_with('}') {
+                        in_proc = false;
+                    } else if in_proc && t.starts_with("mov ") {
+                        *l = l.replacen("mov ", "add ", 1).replacen("MOV ", "ADD ", 1);
+                    }
+                }
+            }
+        }
+    }
+    lines.join("\n")
+}
+
+/// kind "history": a session alone on a fresh thread, and again after a few look-alikes and
+/// unrelated sessions on one thread: whatever the library keeps per thread must not show
+fn make_history_case(r: &mut Rng, seed: u64, run: u64, stats: &mut Stats) -> Option<Case> {
+    let mk = |r: &mut Rng, stats: &mut Stats| -> Option<Case> {
+        let stepping = *r.pick(&[Stepping::None, Stepping::None, Stepping::Interpreted, Stepping::Int3]);
+        let mut feat = Feat::swarm(r, 55);
+        feat.macros |= r.chance(60);
+        feat.procs |= r.chance(40);
+        feat.jumps |= r.chance(60);
+        feat.loops |= r.chance(40);
+        let plan = SessionPlan {
+            property: "C19",
+            stepping,
+            feat,
+            layout: Layout::plain(),
+            body: (2, *r.pick(&[4, 8, 14])),
+            policy: ScriptPolicy { print_pct: 10, garbage_pct: 5, ..ScriptPolicy::next_only() },
+            faulted: false,
+            alt_plain_ref: false,
+            alt_no_prints: false,
+        };
+        let b = build_session(r, seed, run, &plan)?;
+        stats.gen_rejects += b.rejects as u64;
+        Some(b.case)
+    };
+    let main = mk(r, stats)?;
+    let mut case = main.clone();
+    case.kind = "history".to_owned();
+    case.program = None;
+    case.alts.clear();
+    let text = String::from_utf8_lossy(&main.scn.source.0).into_owned();
+    let n = r.urange(1, 4);
+    for k in 0..n {
+        let mut p = main.scn.clone();
+        if k == 0 || r.chance(50) {
+            // a look-alike of the session itself (it may not even assemble: then it is a rejected source)
+            p.source = Bytes(look_alike(r, &text).into_bytes());
+        } else if let Some(other) = mk(r, stats) {
+            p = other.scn;
+        }
+        p.stdin.plan.clear();
+        p.stdout.plan.clear();
+        case.alts.push(AltRun { role: "pred".to_owned(), scn: p, gen: None });
+    }
+    case.config = "thread_history".to_owned();
+    case.faults = vec!["earlier_sessions_on_the_same_thread".to_owned()];
+    Some(case)
+}
+
+pub fn judge_history(_case: &Case, ex: &Exec) -> Vec<Violation> {
+    let mut v = Vec::new();
+    let a = &ex.h;
+    let b = match ex.alts.get(0) {
+        Some(b) => b,
+        None => return v,
+    };
+    if a.out_of_fuel() || b.out_of_fuel() {
+        return v;
+    }
+    let trace = |h: &History| -> Vec<(usize, [u16; 14])> {
+        h.events.iter().filter_map(|e| match e { Event::Probe { idx, regs, .. } => Some((*idx, *regs)), _ => None }).collect()
+    };
+    let (oa, ob) = (a.records_text(), b.records_text());
+    if oa != ob || a.stderr_text() != b.stderr_text() {
+        let p = oa.bytes().zip(ob.bytes()).position(|(x, y)| x != y).unwrap_or(oa.len().min(ob.len()));
+        let ctx = |s: &str| -> String {
+            let bts = s.as_bytes();
+            String::from_utf8_lossy(&bts[p.saturating_sub(30).min(bts.len())..(p + 60).min(bts.len())]).into_owned()
+        };
+        v.push(Violation::new(
+            "C19:thread_history_dependent{output}",
+            format!("the same source and input give different output on a thread that has run other sessions before: {:?} (fresh) vs {:?}", ctx(&oa), ctx(&ob)),
+        ));
+    } else if trace(a) != trace(b) || a.final_mem() != b.final_mem() {
+        v.push(Violation::new(
+            "C19:thread_history_dependent{state}",
+            "the same source and input lead to a different instruction trace or final memory on a thread that has run other sessions before".to_string(),
+        ));
+    } else if a.ended() != b.ended() {
+        v.push(Violation::new("C19:thread_history_dependent{exit}", "the run ends differently on a thread that has run other sessions before".to_string()));
+    }
+    v
 }
 
 fn make_env_case(r: &mut Rng, seed: u64, run: u64, stats: &mut Stats) -> Option<Case> {
